@@ -80,6 +80,9 @@ def average(x, y, n):
     ay = []
     for r in ry:
         v = [u for u in r if u == u]
+        if not v:                           # nothing but padding / missing samples in this row
+            ay.append(float("nan"))
+            continue
         try:
             ay.append(math.fsum(v) / len(v))
         except ValueError:                  # +inf and -inf in one row: the mean is undefined
